@@ -4,6 +4,10 @@ var authDeviations = []string{"cd.type", "cd.challenge", "cd.origin", "ad.rpIdHa
 	"sig.authDataOnly", "sig.bitflip", "sig.empty", "tamper.authData", "tamper.cdj", "id.unknown", "userHandle.foreign", "userHandle.missing", "allow.excludes"}
 
 func authCase(c *Ctx, stream string, alg int, devs ...string) {
+	authCaseVar(c, stream, alg, -1, 0, devs...)
+}
+
+func authCaseVar(c *Ctx, stream string, alg int, v int, chalLen int, devs ...string) {
 	r := c.R
 	origin := pick(r, honestOrigins)
 	var kp *KeyPair
@@ -15,6 +19,10 @@ func authCase(c *Ctx, stream string, alg int, devs ...string) {
 	credID := r.Bytes(pick(r, []int{1, 16, 32, 64}))
 	owner := r.Bytes(1 + r.Intn(12))
 	s := newAuthSpec(r, origin, kp, credID, owner, kp.COSE(r.Bool()))
+	s.Var = v
+	if chalLen > 0 {
+		s.Challenge = r.Bytes(chalLen)
+	}
 	name := ""
 	for _, d := range devs {
 		if name != "" {
@@ -68,6 +76,18 @@ func init() {
 					for _, alg := range []int{algES256, pick(c.R, allAlgs)} {
 						authCase(c, "auth.dev."+dv, alg, dv)
 					}
+				}
+			}
+		}},
+		Stream{"auth.deviationVariants", func(c *Ctx) {
+			for _, dv := range []string{"cd.type", "cd.challenge", "cd.origin", "ad.rpIdHash"} {
+				for v := 0; v < maxVariants; v++ {
+					authCaseVar(c, "auth.var."+dv, pick(c.R, allAlgs), v, 0, dv)
+				}
+			}
+			for l := 1; l <= 6; l++ {
+				for v := 0; v < maxVariants; v++ {
+					authCaseVar(c, "auth.var.cd.challenge.len", algES256, v, l, "cd.challenge")
 				}
 			}
 		}},
